@@ -220,13 +220,13 @@ def _mentions_sym(t, name):
     return mentions_name(t, name)
 
 
-def _const_false_of_shape(v):
+def _const_false_of_shape(v, q='q.'):
     if isinstance(v, Const) and v.v is False:
         return True
-    if isinstance(v, App) and v.name.split('.')[-1] in ('zeros', 'zeros_like') and _mentions_sym(v, 'q.'):
+    if isinstance(v, App) and v.name.split('.')[-1] in ('zeros', 'zeros_like') and (_mentions_sym(v, q) or f'({q})' in show(v, 400)):
         return True
     if isinstance(v, Ite):
-        return _const_false_of_shape(v.a) and _const_false_of_shape(v.b)
+        return _const_false_of_shape(v.a, q) and _const_false_of_shape(v.b, q)
     return False
 
 
@@ -248,10 +248,15 @@ def r3(ctx):
         f = method_or_fail(ctx, ci, 'contains')
         t = ev.call(f, [ev.symbolic_instance(ci), Obj('SkyCoord', {}, 'sc'), Obj('WCS', {}, 'wcs')], {})
         v, _ = split_include(truthy(t) if not isinstance(t, (Cmp, BoolT, Const, Ite)) else t, inc)
-        if isinstance(v, Const) and v.v is False:
-            ctx.ok(f'{cname}.contains', 'constant False')
+        scalar_ok = isinstance(v, Ite) and isinstance(v.a, Const) and 'isscalar' in show(v.cond)
+        if _const_false_of_shape(v, 'sc') and scalar_ok:
+            ctx.ok(f'{cname}.contains', 'constant False of the query shape')
+        elif isinstance(v, Const) and v.v is False:
+            # nothing is contained, but the answer is one scalar whatever is asked: the shape clause is decided (and
+            # reported) by C06.R4, which compares with the pixel image's answer
+            ctx.ok(f'{cname}.contains', 'constant False (answer shape: see C06.R4)')
         else:
-            ctx.bad(f'{cname}.contains', 'not-empty', f'sky membership is {show(v, 200)}, not False', f.loc())
+            ctx.bad(f'{cname}.contains', 'not-empty', f'sky membership is {show(v, 200)}, not constant False', f.loc())
 
 
 def epilogue_bodies(ctx):
@@ -461,6 +466,43 @@ def r7(ctx):
 GEOMETRY_METHODS = ('contains', 'bounding_box', 'to_mask', 'area', 'as_artist', 'to_sky', 'rotate', 'to_polygon')
 
 
+MEMOISERS = ('lazyproperty', 'cached_property', 'lru_cache', 'cache', 'classproperty_cached')
+
+
+def memoised_geometry(m, ci, names=None):
+    """[(method, why)]: geometry methods of class `ci` (and the properties/methods of `self` they read, transitively)
+    that remember a result across calls — a memoising decorator, or a store into `self.<attr>` inside the getter. A region's
+    parameters are assignable (and its operands mutable), so a remembered box / membership / mask goes stale."""
+    out = []
+    todo = [n for n in (names or GEOMETRY_METHODS)]
+    seen = set()
+    while todo:
+        name = todo.pop()
+        if name in seen:
+            continue
+        seen.add(name)
+        f = m.method(ci, name)
+        if f is None:
+            continue
+        for d in f.node.decorator_list:
+            dn = d.func if isinstance(d, ast.Call) else d
+            short = ast.unparse(dn).split('.')[-1]
+            if short in MEMOISERS:
+                out.append((name, f'is decorated with @{ast.unparse(dn)}: computed once per instance', f))
+        for n in ast.walk(f.node):
+            if isinstance(n, (ast.Assign, ast.AugAssign, ast.AnnAssign)) and name not in ('rotate', 'to_sky', 'to_polygon'):
+                tgts = n.targets if isinstance(n, ast.Assign) else [n.target]
+                for t in tgts:
+                    if isinstance(t, ast.Attribute) and isinstance(t.value, ast.Name) and t.value.id == 'self':
+                        out.append((name, f'stores its result in self.{t.attr} (`{norm(n)[:60]}`)', f))
+            if isinstance(n, ast.Attribute) and isinstance(n.value, ast.Name) and n.value.id == 'self' \
+                    and isinstance(n.ctx, ast.Load):
+                r = m.lookup(ci, n.attr)
+                if r is not None and r[1] == 'method':
+                    todo.append(n.attr)
+    return out
+
+
 def r8(ctx):
     """the geometry is a function of the region's *current* parameters: every attribute the geometry methods read is a
     parameter (assignable, validated, compared, copied, serialised), a property/method, or a class constant — not a value
@@ -490,7 +532,13 @@ def r8(ctx):
             if m.descriptor_kind(ci, a) is None:
                 continue              # class-level constant
             stale.append((a, sorted(where)))
-        if stale:
+        memo = memoised_geometry(m, ci)
+        if memo:
+            name, why, f = memo[0]
+            ctx.bad(ci.name, f'memoised:{name}',
+                    f'{ci.name}.{name} {why}; the region\'s parameters (and the operands of a compound) can change afterwards, so '
+                    'membership, box, mask and artist can describe an old shape', f.loc())
+        elif stale:
             a, where = stale[0]
             ctx.bad(ci.name, f'stale-derived:{a}',
                     f'{", ".join(where)} read self.{a}, which is stored once by the constructor and is not one of the '
